@@ -60,8 +60,14 @@ pub fn tokens_str(t: &[(String, String)]) -> String {
 
 /// Runs `f` on every line of the case file named by argv[1] (fields split at
 /// TAB, still encoded), printing one output line per case. Panics inside `f`
-/// become the line `PANIC`. argv[2], argv[3] (optional) = shard index, count.
+/// become the line `PANIC`. argv[2], argv[3] (optional) = shard index, count;
+/// argv[4] (optional) = number of this shard's cases to skip (restart after a
+/// hang). A watchdog thread prints `HANG` for a case that runs longer than
+/// $HX_CASE_TIMEOUT_MS (default 4000) and exits the process with status 3; the
+/// driver restarts the shard after that case.
 pub fn main_loop<F: Fn(&[&str]) -> String + std::panic::RefUnwindSafe>(f: F) {
+    use std::sync::atomic::{AtomicU64, Ordering};
+    use std::sync::Arc;
     let args: Vec<String> = std::env::args().collect();
     let file = std::fs::File::open(&args[1]).expect("case file");
     let (shard, nshard) = if args.len() >= 4 {
@@ -69,19 +75,71 @@ pub fn main_loop<F: Fn(&[&str]) -> String + std::panic::RefUnwindSafe>(f: F) {
     } else {
         (0, 1)
     };
+    let skip = if args.len() >= 5 { args[4].parse::<usize>().unwrap() } else { 0 };
+    let limit_ms: u64 = std::env::var("HX_CASE_TIMEOUT_MS").ok().and_then(|x| x.parse().ok()).unwrap_or(4000);
     std::panic::set_hook(Box::new(|_| {}));
-    let out = std::io::stdout();
-    let mut out = std::io::BufWriter::new(out.lock());
+    // Results go to a private duplicate of stdout; fd 1 itself is pointed at
+    // /dev/null so that anything cicada prints with println! (diagnostics,
+    // builtin output) cannot corrupt the one-line-per-case protocol.
+    let result_fd = unsafe { dup(1) };
+    unsafe {
+        let devnull = open(b"/dev/null\0".as_ptr() as *const i8, 1);
+        if devnull >= 0 {
+            dup2(devnull, 1);
+            if std::env::var("HX_KEEP_STDERR").is_err() {
+                dup2(devnull, 2);
+            }
+            close(devnull);
+        }
+    }
+    let mut out = unsafe { <std::fs::File as std::os::unix::io::FromRawFd>::from_raw_fd(result_fd) };
+    // watchdog: `tick` holds the start time (ms since launch) of the running case, 0 = idle
+    let t0 = std::time::Instant::now();
+    let tick = Arc::new(AtomicU64::new(0));
+    {
+        let tick = tick.clone();
+        std::thread::spawn(move || loop {
+            std::thread::sleep(std::time::Duration::from_millis(100));
+            let st = tick.load(Ordering::SeqCst);
+            if st != 0 && (t0.elapsed().as_millis() as u64) > st + limit_ms {
+                // stdout is unbuffered below (we flush after every case), so this is the next line
+                unsafe {
+                    write(result_fd, b"HANG\n".as_ptr(), 5);
+                    libc_exit(3)
+                };
+            }
+        });
+    }
+    let mut seen = 0usize;
     for (i, l) in std::io::BufReader::new(file).lines().enumerate() {
         if i % nshard != shard {
             continue;
         }
+        seen += 1;
+        if seen <= skip {
+            continue;
+        }
         let l = l.unwrap();
         let fields: Vec<&str> = l.split('\t').collect();
+        tick.store(t0.elapsed().as_millis() as u64 + 1, Ordering::SeqCst);
         let r = std::panic::catch_unwind(|| f(&fields));
+        tick.store(0, Ordering::SeqCst);
         match r {
-            Ok(s) => writeln!(out, "{}", s).unwrap(),
+            Ok(s) => writeln!(out, "{}", s.replace('\n', "%0A")).unwrap(),
             Err(_) => writeln!(out, "PANIC").unwrap(),
         }
+        out.flush().unwrap();
     }
+}
+
+extern "C" {
+    fn _exit(code: i32) -> !;
+    fn dup(fd: i32) -> i32;
+    fn dup2(a: i32, b: i32) -> i32;
+    fn close(fd: i32) -> i32;
+    fn open(path: *const i8, flags: i32) -> i32;
+    fn write(fd: i32, buf: *const u8, n: usize) -> isize;
+}
+unsafe fn libc_exit(code: i32) -> ! {
+    _exit(code)
 }
